@@ -62,6 +62,8 @@ def build(p: dict[str, Any]) -> dict[str, Any]:
                state=dict(instance_variables=st_i, particle_variables=st_p, default_values=defaults),
                ibm=dict(module=C.REC_IBM, kill=kills, age=True, log=False),
                output=dict(period=p["period"] * dt, numrec=p.get("numrec", 0), layout=p.get("layout", "sparse"), instance=out_i, particle=out_p))
+    if p.get("filename"):
+        run["output"]["filename"] = p["filename"]
     return dict(world=w, run=run)
 
 
